@@ -188,22 +188,22 @@ func runC16(payload string) string {
 // payload builders (wire strings; variables are small numbers local to the case)
 // ---------------------------------------------------------------------------------------------
 
-func wV(n int) string      { return fmt.Sprintf("V%d", n) }
-func wA(s string) string   { return "A" + encName(s) }
-func wI(i int64) string    { return fmt.Sprintf("I%d", i) }
+func wV_c16(n int) string      { return fmt.Sprintf("V%d", n) }
+func wA_c16(s string) string   { return "A" + encName(s) }
+func wI_c16(i int64) string    { return fmt.Sprintf("I%d", i) }
 func wF() string           { return "F3ff8000000000000" } // 1.5
-func wC(f string, args ...string) string {
+func wC_c16(f string, args ...string) string {
 	return fmt.Sprintf("C%d:%s %s", len(args), encName(f), strings.Join(args, " "))
 }
 func wL(tail string, elems ...string) string {
 	out := tail
 	for i := len(elems) - 1; i >= 0; i-- {
-		out = wC(".", elems[i], out)
+		out = wC_c16(".", elems[i], out)
 	}
 	return out
 }
-func wNil() string { return wA("[]") }
-func wList(elems ...string) string { return wL(wNil(), elems...) }
+func wNil_c16() string { return wA_c16("[]") }
+func wList_c16(elems ...string) string { return wL(wNil_c16(), elems...) }
 
 func c16Case(pred string, k int, args ...string) string {
 	return fmt.Sprintf("%s %d %s", pred, k, strings.Join(args, " "))
@@ -246,7 +246,7 @@ func join(cs []string) string { return strings.Join(cs, "") }
 func charListW(cs []string) []string {
 	out := make([]string, len(cs))
 	for i, c := range cs {
-		out[i] = wA(c)
+		out[i] = wA_c16(c)
 	}
 	return out
 }
@@ -255,13 +255,13 @@ func codeListW(cs []string) []string {
 	out := make([]string, len(cs))
 	for i, c := range cs {
 		r, _ := utf8.DecodeRuneInString(c)
-		out[i] = wI(int64(r))
+		out[i] = wI_c16(int64(r))
 	}
 	return out
 }
 
 // ill-typed / out-of-mode argument values
-var c16Junk = []string{wI(1), wF(), wC("f", wA("a")), wI(-1), wA("foo")}
+var c16Junk = []string{wI_c16(1), wF(), wC_c16("f", wA_c16("a")), wI_c16(-1), wA_c16("foo")}
 
 // ---------------------------------------------------------------------------------------------
 // systematic (small-scope exhaustive) cases; scope = maximal text / list length
@@ -270,16 +270,16 @@ var c16Junk = []string{wI(1), wF(), wC("f", wA("a")), wI(-1), wA("foo")}
 func sysAtomLength(scope int) []string {
 	var out []string
 	for _, cs := range c16TextsUpTo(scope + 1) {
-		s, n := wA(join(cs)), int64(len(cs))
-		out = append(out, c16Case("atom_length", c16K, s, wV(0)), c16Case("atom_length", c16K, s, wI(n)),
-			c16Case("atom_length", c16K, s, wI(n+1)))
+		s, n := wA_c16(join(cs)), int64(len(cs))
+		out = append(out, c16Case("atom_length", c16K, s, wV_c16(0)), c16Case("atom_length", c16K, s, wI_c16(n)),
+			c16Case("atom_length", c16K, s, wI_c16(n+1)))
 		if n > 0 {
-			out = append(out, c16Case("atom_length", c16K, s, wI(int64(len(join(cs)))))) // byte length
+			out = append(out, c16Case("atom_length", c16K, s, wI_c16(int64(len(join(cs)))))) // byte length
 		}
 	}
-	for _, j := range append(c16Junk, wV(1)) {
-		out = append(out, c16Case("atom_length", c16K, j, wV(0)), c16Case("atom_length", c16K, wA("é"), j),
-			c16Case("atom_length", c16K, j, wI(-1)), c16Case("atom_length", c16K, wV(0), j))
+	for _, j := range append(c16Junk, wV_c16(1)) {
+		out = append(out, c16Case("atom_length", c16K, j, wV_c16(0)), c16Case("atom_length", c16K, wA_c16("é"), j),
+			c16Case("atom_length", c16K, j, wI_c16(-1)), c16Case("atom_length", c16K, wV_c16(0), j))
 	}
 	return out
 }
@@ -288,23 +288,23 @@ func sysAtomConcat(scope int) []string {
 	var out []string
 	p := "atom_concat"
 	for _, cs := range c16TextsUpTo(scope) {
-		c := wA(join(cs))
-		out = append(out, c16Case(p, c16K, wV(0), wV(1), c), c16Case(p, c16K, wV(0), wV(0), c),
-			c16Case(p, c16K, wA("b"), wV(0), c), c16Case(p, c16K, wV(0), wA("é"), c), c16Case(p, c16K, wV(0), wA(""), c))
+		c := wA_c16(join(cs))
+		out = append(out, c16Case(p, c16K, wV_c16(0), wV_c16(1), c), c16Case(p, c16K, wV_c16(0), wV_c16(0), c),
+			c16Case(p, c16K, wA_c16("b"), wV_c16(0), c), c16Case(p, c16K, wV_c16(0), wA_c16("é"), c), c16Case(p, c16K, wV_c16(0), wA_c16(""), c))
 		for i := 0; i <= len(cs); i++ {
-			a, b := wA(join(cs[:i])), wA(join(cs[i:]))
-			out = append(out, c16Case(p, c16K, a, wV(0), c), c16Case(p, c16K, wV(0), b, c),
-				c16Case(p, c16K, a, b, c), c16Case(p, c16K, a, b, wV(0)), c16Case(p, c16K, b, a, c))
+			a, b := wA_c16(join(cs[:i])), wA_c16(join(cs[i:]))
+			out = append(out, c16Case(p, c16K, a, wV_c16(0), c), c16Case(p, c16K, wV_c16(0), b, c),
+				c16Case(p, c16K, a, b, c), c16Case(p, c16K, a, b, wV_c16(0)), c16Case(p, c16K, b, a, c))
 		}
 	}
-	x := wA("é€")
+	x := wA_c16("é€")
 	for _, j := range c16Junk[:3] {
-		out = append(out, c16Case(p, c16K, j, wV(0), x), c16Case(p, c16K, wV(0), j, x), c16Case(p, c16K, wV(0), wV(1), j),
-			c16Case(p, c16K, j, wA("b"), wV(0)), c16Case(p, c16K, wA("a"), j, wV(0)), c16Case(p, c16K, j, j, j),
-			c16Case(p, c16K, j, wV(0), wV(1)), c16Case(p, c16K, wV(0), j, wV(1)))
+		out = append(out, c16Case(p, c16K, j, wV_c16(0), x), c16Case(p, c16K, wV_c16(0), j, x), c16Case(p, c16K, wV_c16(0), wV_c16(1), j),
+			c16Case(p, c16K, j, wA_c16("b"), wV_c16(0)), c16Case(p, c16K, wA_c16("a"), j, wV_c16(0)), c16Case(p, c16K, j, j, j),
+			c16Case(p, c16K, j, wV_c16(0), wV_c16(1)), c16Case(p, c16K, wV_c16(0), j, wV_c16(1)))
 	}
-	out = append(out, c16Case(p, c16K, wV(0), wV(1), wV(2)), c16Case(p, c16K, wA("a"), wV(1), wV(2)),
-		c16Case(p, c16K, wV(0), wA("b"), wV(2)), c16Case(p, c16K, wV(0), wV(0), wV(0)))
+	out = append(out, c16Case(p, c16K, wV_c16(0), wV_c16(1), wV_c16(2)), c16Case(p, c16K, wA_c16("a"), wV_c16(1), wV_c16(2)),
+		c16Case(p, c16K, wV_c16(0), wA_c16("b"), wV_c16(2)), c16Case(p, c16K, wV_c16(0), wV_c16(0), wV_c16(0)))
 	return out
 }
 
@@ -312,11 +312,11 @@ func sysSubAtom(scope int) []string {
 	var out []string
 	p := "sub_atom"
 	for _, cs := range c16TextsUpTo(scope) {
-		w, n := wA(join(cs)), len(cs)
-		out = append(out, c16Case(p, c16K, w, wV(0), wV(1), wV(2), wV(3)))
+		w, n := wA_c16(join(cs)), len(cs)
+		out = append(out, c16Case(p, c16K, w, wV_c16(0), wV_c16(1), wV_c16(2), wV_c16(3)))
 		for i := 0; i <= n; i++ {
 			for j := i; j <= n; j++ {
-				tuple := []string{wI(int64(i)), wI(int64(j - i)), wI(int64(n - j)), wA(join(cs[i:j]))}
+				tuple := []string{wI_c16(int64(i)), wI_c16(int64(j - i)), wI_c16(int64(n - j)), wA_c16(join(cs[i:j]))}
 				for m := 1; m < 16; m++ {
 					args := []string{w}
 					v := 0
@@ -324,7 +324,7 @@ func sysSubAtom(scope int) []string {
 						if m&(1<<q) != 0 {
 							args = append(args, tuple[q])
 						} else {
-							args = append(args, wV(v))
+							args = append(args, wV_c16(v))
 							v++
 						}
 					}
@@ -333,17 +333,17 @@ func sysSubAtom(scope int) []string {
 			}
 		}
 		// patterns that are not taken from a tuple of the relation
-		out = append(out, c16Case(p, c16K, w, wV(0), wV(1), wV(2), wA("b")), c16Case(p, c16K, w, wV(0), wV(1), wV(2), wA("é")),
-			c16Case(p, c16K, w, wV(0), wV(0), wV(1), wV(2)), c16Case(p, c16K, w, wV(0), wV(1), wV(0), wV(2)),
-			c16Case(p, c16K, w, wV(0), wV(0), wV(0), wV(1)), c16Case(p, c16K, w, wI(int64(n+1)), wV(0), wV(1), wV(2)),
-			c16Case(p, c16K, w, wV(0), wI(int64(len(join(cs)))), wV(1), wV(2)), // byte length
-			c16Case(p, c16K, w, wV(0), wV(1), wV(2), w), c16Case(p, c16K, w, wI(1), wI(1), wV(2), wV(3)))
+		out = append(out, c16Case(p, c16K, w, wV_c16(0), wV_c16(1), wV_c16(2), wA_c16("b")), c16Case(p, c16K, w, wV_c16(0), wV_c16(1), wV_c16(2), wA_c16("é")),
+			c16Case(p, c16K, w, wV_c16(0), wV_c16(0), wV_c16(1), wV_c16(2)), c16Case(p, c16K, w, wV_c16(0), wV_c16(1), wV_c16(0), wV_c16(2)),
+			c16Case(p, c16K, w, wV_c16(0), wV_c16(0), wV_c16(0), wV_c16(1)), c16Case(p, c16K, w, wI_c16(int64(n+1)), wV_c16(0), wV_c16(1), wV_c16(2)),
+			c16Case(p, c16K, w, wV_c16(0), wI_c16(int64(len(join(cs)))), wV_c16(1), wV_c16(2)), // byte length
+			c16Case(p, c16K, w, wV_c16(0), wV_c16(1), wV_c16(2), w), c16Case(p, c16K, w, wI_c16(1), wI_c16(1), wV_c16(2), wV_c16(3)))
 	}
-	x := wA("é€")
-	for _, j := range append(c16Junk, wV(9)) {
-		out = append(out, c16Case(p, c16K, j, wV(0), wV(1), wV(2), wV(3)), c16Case(p, c16K, x, j, wV(1), wV(2), wV(3)),
-			c16Case(p, c16K, x, wV(0), j, wV(2), wV(3)), c16Case(p, c16K, x, wV(0), wV(1), j, wV(3)),
-			c16Case(p, c16K, x, wV(0), wV(1), wV(2), j), c16Case(p, c16K, x, j, j, j, j))
+	x := wA_c16("é€")
+	for _, j := range append(c16Junk, wV_c16(9)) {
+		out = append(out, c16Case(p, c16K, j, wV_c16(0), wV_c16(1), wV_c16(2), wV_c16(3)), c16Case(p, c16K, x, j, wV_c16(1), wV_c16(2), wV_c16(3)),
+			c16Case(p, c16K, x, wV_c16(0), j, wV_c16(2), wV_c16(3)), c16Case(p, c16K, x, wV_c16(0), wV_c16(1), j, wV_c16(3)),
+			c16Case(p, c16K, x, wV_c16(0), wV_c16(1), wV_c16(2), j), c16Case(p, c16K, x, j, j, j, j))
 	}
 	return out
 }
@@ -357,30 +357,30 @@ func sysAtomChars(scope int, codes bool) []string {
 		conv = codeListW
 	}
 	for _, cs := range c16TextsUpTo(scope) {
-		a, es := wA(join(cs)), conv(cs)
-		out = append(out, c16Case(p, c16K, a, wV(0)), c16Case(p, c16K, a, wList(es...)), c16Case(p, c16K, wV(0), wList(es...)),
-			c16Case(p, c16K, a, wList(append(append([]string{}, es...), conv([]string{"a"})...)...)),
-			c16Case(p, c16K, a, wList(wV(0), wV(0))), c16Case(p, c16K, wA(join(cs)+"b"), wList(es...)))
+		a, es := wA_c16(join(cs)), conv(cs)
+		out = append(out, c16Case(p, c16K, a, wV_c16(0)), c16Case(p, c16K, a, wList_c16(es...)), c16Case(p, c16K, wV_c16(0), wList_c16(es...)),
+			c16Case(p, c16K, a, wList_c16(append(append([]string{}, es...), conv([]string{"a"})...)...)),
+			c16Case(p, c16K, a, wList_c16(wV_c16(0), wV_c16(0))), c16Case(p, c16K, wA_c16(join(cs)+"b"), wList_c16(es...)))
 		for i := 0; i < len(es); i++ {
-			out = append(out, c16Case(p, c16K, a, wL(wV(0), es[:i]...)))
+			out = append(out, c16Case(p, c16K, a, wL(wV_c16(0), es[:i]...)))
 			withVar := append([]string{}, es...)
-			withVar[i] = wV(0)
-			out = append(out, c16Case(p, c16K, a, wList(withVar...)), c16Case(p, c16K, wV(1), wList(withVar...)))
+			withVar[i] = wV_c16(0)
+			out = append(out, c16Case(p, c16K, a, wList_c16(withVar...)), c16Case(p, c16K, wV_c16(1), wList_c16(withVar...)))
 			other := append([]string{}, es...)
 			other[i] = conv([]string{"€"})[0]
-			out = append(out, c16Case(p, c16K, a, wList(other...)))
-			out = append(out, c16Case(p, c16K, wV(1), wL(wV(0), es[:i+1]...)))
+			out = append(out, c16Case(p, c16K, a, wList_c16(other...)))
+			out = append(out, c16Case(p, c16K, wV_c16(1), wL(wV_c16(0), es[:i+1]...)))
 		}
 	}
-	x := wA("é€")
-	bad := []string{wA("ab"), wA(""), wI(1), wI(-1), wI(0x110000), wI(0xD800), wI(0xDFFF), wI(4294967393), wF(), wC("f", wA("a"))}
+	x := wA_c16("é€")
+	bad := []string{wA_c16("ab"), wA_c16(""), wI_c16(1), wI_c16(-1), wI_c16(0x110000), wI_c16(0xD800), wI_c16(0xDFFF), wI_c16(4294967393), wF(), wC_c16("f", wA_c16("a"))}
 	for _, b := range bad {
-		out = append(out, c16Case(p, c16K, wV(0), wList(b)), c16Case(p, c16K, x, wList(b)), c16Case(p, c16K, x, wList(wV(0), b)),
-			c16Case(p, c16K, wV(0), wList(b, wV(1))), c16Case(p, c16K, wV(0), wL(wA("foo"), b)), c16Case(p, c16K, b, wV(0)))
+		out = append(out, c16Case(p, c16K, wV_c16(0), wList_c16(b)), c16Case(p, c16K, x, wList_c16(b)), c16Case(p, c16K, x, wList_c16(wV_c16(0), b)),
+			c16Case(p, c16K, wV_c16(0), wList_c16(b, wV_c16(1))), c16Case(p, c16K, wV_c16(0), wL(wA_c16("foo"), b)), c16Case(p, c16K, b, wV_c16(0)))
 	}
-	out = append(out, c16Case(p, c16K, wV(0), wV(1)), c16Case(p, c16K, x, wA("foo")), c16Case(p, c16K, x, wL(wA("foo"), wV(0))),
-		c16Case(p, c16K, wV(0), wA("foo")), c16Case(p, c16K, wV(0), wL(wI(1), wA("a"))), c16Case(p, c16K, wA("[]"), wV(0)),
-		c16Case(p, c16K, wV(0), wNil()), c16Case(p, c16K, wA(""), wV(0)), c16Case(p, c16K, wA(""), wNil()))
+	out = append(out, c16Case(p, c16K, wV_c16(0), wV_c16(1)), c16Case(p, c16K, x, wA_c16("foo")), c16Case(p, c16K, x, wL(wA_c16("foo"), wV_c16(0))),
+		c16Case(p, c16K, wV_c16(0), wA_c16("foo")), c16Case(p, c16K, wV_c16(0), wL(wI_c16(1), wA_c16("a"))), c16Case(p, c16K, wA_c16("[]"), wV_c16(0)),
+		c16Case(p, c16K, wV_c16(0), wNil_c16()), c16Case(p, c16K, wA_c16(""), wV_c16(0)), c16Case(p, c16K, wA_c16(""), wNil_c16()))
 	return out
 }
 
@@ -392,18 +392,18 @@ func sysCharCode() []string {
 	var out []string
 	p := "char_code"
 	for _, cd := range c16Codes {
-		out = append(out, c16Case(p, c16K, wV(0), wI(cd)))
+		out = append(out, c16Case(p, c16K, wV_c16(0), wI_c16(cd)))
 		if cd >= 0 && cd <= 0x10ffff && !(cd >= 0xd800 && cd <= 0xdfff) {
-			ch := wA(string(rune(cd)))
-			out = append(out, c16Case(p, c16K, ch, wV(0)), c16Case(p, c16K, ch, wI(cd)), c16Case(p, c16K, ch, wI(cd+1)),
-				c16Case(p, c16K, ch, wI(cd+4294967296)))
+			ch := wA_c16(string(rune(cd)))
+			out = append(out, c16Case(p, c16K, ch, wV_c16(0)), c16Case(p, c16K, ch, wI_c16(cd)), c16Case(p, c16K, ch, wI_c16(cd+1)),
+				c16Case(p, c16K, ch, wI_c16(cd+4294967296)))
 		}
 	}
 	for _, c := range c16Sigma {
-		out = append(out, c16Case(p, c16K, wA(c), wV(0)), c16Case(p, c16K, wA(c+c), wV(0)), c16Case(p, c16K, wA(c), wA(c)))
+		out = append(out, c16Case(p, c16K, wA_c16(c), wV_c16(0)), c16Case(p, c16K, wA_c16(c+c), wV_c16(0)), c16Case(p, c16K, wA_c16(c), wA_c16(c)))
 	}
-	for _, j := range append(c16Junk, wV(1), wA(""), wA("ab")) {
-		out = append(out, c16Case(p, c16K, j, wV(0)), c16Case(p, c16K, wV(0), j), c16Case(p, c16K, wA("é"), j), c16Case(p, c16K, j, wI(97)))
+	for _, j := range append(c16Junk, wV_c16(1), wA_c16(""), wA_c16("ab")) {
+		out = append(out, c16Case(p, c16K, j, wV_c16(0)), c16Case(p, c16K, wV_c16(0), j), c16Case(p, c16K, wA_c16("é"), j), c16Case(p, c16K, j, wI_c16(97)))
 	}
 	return out
 }
@@ -417,9 +417,9 @@ func sysBetween() []string {
 	grid := func(vals []int64) {
 		for _, l := range vals {
 			for _, h := range vals {
-				out = append(out, c16Case(p, c16KInf+2, wI(l), wI(h), wV(0)))
+				out = append(out, c16Case(p, c16KInf+2, wI_c16(l), wI_c16(h), wV_c16(0)))
 				for _, x := range vals {
-					out = append(out, c16Case(p, c16K, wI(l), wI(h), wI(x)))
+					out = append(out, c16Case(p, c16K, wI_c16(l), wI_c16(h), wI_c16(x)))
 				}
 			}
 		}
@@ -427,18 +427,18 @@ func sysBetween() []string {
 	grid(c16NearZero)
 	grid(c16NearLimits)
 	for _, l := range []int64{c16MinInt, -1, 0, c16MaxInt - 3} {
-		out = append(out, c16Case(p, c16KInf, wI(l), wI(c16MaxInt), wV(0)), c16Case(p, 1, wI(l), wI(c16MaxInt), wV(0)))
+		out = append(out, c16Case(p, c16KInf, wI_c16(l), wI_c16(c16MaxInt), wV_c16(0)), c16Case(p, 1, wI_c16(l), wI_c16(c16MaxInt), wV_c16(0)))
 	}
-	for _, j := range []string{wV(1), wA("inf"), wA("infinite"), wF(), wC("f", wA("a"))} {
-		out = append(out, c16Case(p, c16K, j, wI(2), wV(0)), c16Case(p, c16K, wI(1), j, wV(0)), c16Case(p, c16K, wI(1), wI(2), j),
-			c16Case(p, c16K, wI(3), wI(2), j), c16Case(p, c16K, j, j, j))
+	for _, j := range []string{wV_c16(1), wA_c16("inf"), wA_c16("infinite"), wF(), wC_c16("f", wA_c16("a"))} {
+		out = append(out, c16Case(p, c16K, j, wI_c16(2), wV_c16(0)), c16Case(p, c16K, wI_c16(1), j, wV_c16(0)), c16Case(p, c16K, wI_c16(1), wI_c16(2), j),
+			c16Case(p, c16K, wI_c16(3), wI_c16(2), j), c16Case(p, c16K, j, j, j))
 	}
 	return out
 }
 
 func sysSucc() []string {
 	var out []string
-	vals := []string{wV(0), wV(1), wI(-1), wI(0), wI(1), wI(2), wI(3), wI(c16MaxInt - 1), wI(c16MaxInt), wI(c16MinInt), wA("foo"), wF(), wC("f", wA("a"))}
+	vals := []string{wV_c16(0), wV_c16(1), wI_c16(-1), wI_c16(0), wI_c16(1), wI_c16(2), wI_c16(3), wI_c16(c16MaxInt - 1), wI_c16(c16MaxInt), wI_c16(c16MinInt), wA_c16("foo"), wF(), wC_c16("f", wA_c16("a"))}
 	for _, x := range vals {
 		for _, s := range vals {
 			out = append(out, c16Case("succ", c16K, x, s))
@@ -449,9 +449,9 @@ func sysSucc() []string {
 
 func sysFunctor() []string {
 	var out []string
-	ts := []string{wV(0), wA("foo"), wI(1), wF(), wC("f", wA("a")), wC("f", wV(1), wV(2)), wList(wA("a")), wC("é", wA("b"), wA("€")), wC("g", wV(1)), wA("[]")}
-	ns := []string{wV(1), wA("foo"), wA("f"), wA("é"), wA("."), wI(1), wF(), wC("g", wA("x")), wA("[]")}
-	as := []string{wV(2), wI(0), wI(1), wI(2), wI(3), wI(9), wI(-1), wA("foo"), wF(), wI(c16MaxInt), wI(1 << 50)}
+	ts := []string{wV_c16(0), wA_c16("foo"), wI_c16(1), wF(), wC_c16("f", wA_c16("a")), wC_c16("f", wV_c16(1), wV_c16(2)), wList_c16(wA_c16("a")), wC_c16("é", wA_c16("b"), wA_c16("€")), wC_c16("g", wV_c16(1)), wA_c16("[]")}
+	ns := []string{wV_c16(1), wA_c16("foo"), wA_c16("f"), wA_c16("é"), wA_c16("."), wI_c16(1), wF(), wC_c16("g", wA_c16("x")), wA_c16("[]")}
+	as := []string{wV_c16(2), wI_c16(0), wI_c16(1), wI_c16(2), wI_c16(3), wI_c16(9), wI_c16(-1), wA_c16("foo"), wF(), wI_c16(c16MaxInt), wI_c16(1 << 50)}
 	for _, t := range ts {
 		for _, n := range ns {
 			for _, a := range as {
@@ -459,18 +459,18 @@ func sysFunctor() []string {
 			}
 		}
 	}
-	out = append(out, c16Case("functor", c16K, wV(0), wV(0), wI(0)), c16Case("functor", c16K, wV(0), wA("a"), wV(0)),
-		c16Case("functor", c16K, wC("f", wV(0)), wV(0), wV(1)), c16Case("functor", c16K, wC("f", wV(0)), wV(1), wV(0)),
-		c16Case("functor", c16K, wC("f", wV(0)), wV(1), wV(1)))
+	out = append(out, c16Case("functor", c16K, wV_c16(0), wV_c16(0), wI_c16(0)), c16Case("functor", c16K, wV_c16(0), wA_c16("a"), wV_c16(0)),
+		c16Case("functor", c16K, wC_c16("f", wV_c16(0)), wV_c16(0), wV_c16(1)), c16Case("functor", c16K, wC_c16("f", wV_c16(0)), wV_c16(1), wV_c16(0)),
+		c16Case("functor", c16K, wC_c16("f", wV_c16(0)), wV_c16(1), wV_c16(1)))
 	return out
 }
 
 func sysArg() []string {
 	var out []string
-	ns := []string{wV(0), wI(-1), wI(0), wI(1), wI(2), wI(3), wI(4), wA("foo"), wF(), wI(c16MaxInt), wI(c16MinInt)}
-	ts := []string{wV(1), wA("foo"), wI(1), wC("f", wA("a")), wC("f", wA("a"), wA("b")), wC("f", wV(3), wA("b")), wList(wA("a"), wA("b")),
-		wC("g", wA("é"), wA("€"), wA("😀")), wC("h", wC("k", wV(8)), wV(3), wV(4))}
-	as := []string{wV(2), wA("a"), wA("b"), wA("é"), wC("k", wA("z")), wV(3), wList(wA("b")), wC("k", wV(2))}
+	ns := []string{wV_c16(0), wI_c16(-1), wI_c16(0), wI_c16(1), wI_c16(2), wI_c16(3), wI_c16(4), wA_c16("foo"), wF(), wI_c16(c16MaxInt), wI_c16(c16MinInt)}
+	ts := []string{wV_c16(1), wA_c16("foo"), wI_c16(1), wC_c16("f", wA_c16("a")), wC_c16("f", wA_c16("a"), wA_c16("b")), wC_c16("f", wV_c16(3), wA_c16("b")), wList_c16(wA_c16("a"), wA_c16("b")),
+		wC_c16("g", wA_c16("é"), wA_c16("€"), wA_c16("😀")), wC_c16("h", wC_c16("k", wV_c16(8)), wV_c16(3), wV_c16(4))}
+	as := []string{wV_c16(2), wA_c16("a"), wA_c16("b"), wA_c16("é"), wC_c16("k", wA_c16("z")), wV_c16(3), wList_c16(wA_c16("b")), wC_c16("k", wV_c16(2))}
 	for _, n := range ns {
 		for _, t := range ts {
 			for _, a := range as {
@@ -483,11 +483,11 @@ func sysArg() []string {
 
 func sysUniv() []string {
 	var out []string
-	ts := []string{wV(0), wA("foo"), wI(1), wF(), wC("f", wA("a")), wC("f", wV(1), wA("b")), wList(wA("a")), wC("é", wA("€")), wA("[]")}
-	ls := []string{wV(5), wNil(), wList(wA("foo")), wList(wA("foo"), wA("a")), wL(wV(5), wA("foo")), wL(wV(6), wV(5)), wList(wI(1)),
-		wList(wI(1), wA("a")), wList(wC("f", wA("a"))), wList(wC("f", wA("a")), wA("b")), wList(wV(5), wA("a")), wList(wV(5)), wA("foo"),
-		wL(wA("bar"), wA("foo")), wList(wA("f"), wV(5), wA("b")), wList(wA("f"), wA("a")), wList(wA("f"), wV(5), wV(5)), wList(wA("é"), wA("€")),
-		wList(wF()), wList(wA("."), wA("a"), wNil()), wList(wA("f"), wA("a"), wA("b")), wL(wV(5), wA("f"), wA("a")), wList(wV(5), wV(6), wV(7))}
+	ts := []string{wV_c16(0), wA_c16("foo"), wI_c16(1), wF(), wC_c16("f", wA_c16("a")), wC_c16("f", wV_c16(1), wA_c16("b")), wList_c16(wA_c16("a")), wC_c16("é", wA_c16("€")), wA_c16("[]")}
+	ls := []string{wV_c16(5), wNil_c16(), wList_c16(wA_c16("foo")), wList_c16(wA_c16("foo"), wA_c16("a")), wL(wV_c16(5), wA_c16("foo")), wL(wV_c16(6), wV_c16(5)), wList_c16(wI_c16(1)),
+		wList_c16(wI_c16(1), wA_c16("a")), wList_c16(wC_c16("f", wA_c16("a"))), wList_c16(wC_c16("f", wA_c16("a")), wA_c16("b")), wList_c16(wV_c16(5), wA_c16("a")), wList_c16(wV_c16(5)), wA_c16("foo"),
+		wL(wA_c16("bar"), wA_c16("foo")), wList_c16(wA_c16("f"), wV_c16(5), wA_c16("b")), wList_c16(wA_c16("f"), wA_c16("a")), wList_c16(wA_c16("f"), wV_c16(5), wV_c16(5)), wList_c16(wA_c16("é"), wA_c16("€")),
+		wList_c16(wF()), wList_c16(wA_c16("."), wA_c16("a"), wNil_c16()), wList_c16(wA_c16("f"), wA_c16("a"), wA_c16("b")), wL(wV_c16(5), wA_c16("f"), wA_c16("a")), wList_c16(wV_c16(5), wV_c16(6), wV_c16(7))}
 	for _, t := range ts {
 		for _, l := range ls {
 			out = append(out, c16Case("univ", c16K, t, l))
@@ -506,7 +506,7 @@ func c16Lists(n int) [][]string {
 		var cur [][]string
 		for _, p := range prev {
 			for _, e := range c16Elems {
-				cur = append(cur, append(append([]string{}, p...), wA(e)))
+				cur = append(cur, append(append([]string{}, p...), wA_c16(e)))
 			}
 		}
 		out = append(out, cur...)
@@ -519,18 +519,18 @@ func sysNth(scope int) []string {
 	var out []string
 	for _, p := range []string{"nth0", "nth1"} {
 		for _, es := range c16Lists(scope) {
-			l := wList(es...)
-			out = append(out, c16Case(p, c16K, wV(0), l, wV(1)), c16Case(p, c16K, wV(0), l, wA("a")), c16Case(p, c16K, wV(0), l, wA("é")),
-				c16Case(p, c16K, wV(0), l, wA("z")), c16Case(p, c16K, wV(0), l, wV(0)))
+			l := wList_c16(es...)
+			out = append(out, c16Case(p, c16K, wV_c16(0), l, wV_c16(1)), c16Case(p, c16K, wV_c16(0), l, wA_c16("a")), c16Case(p, c16K, wV_c16(0), l, wA_c16("é")),
+				c16Case(p, c16K, wV_c16(0), l, wA_c16("z")), c16Case(p, c16K, wV_c16(0), l, wV_c16(0)))
 			for n := int64(-1); n <= int64(len(es))+1; n++ {
-				out = append(out, c16Case(p, c16K, wI(n), l, wV(1)), c16Case(p, c16K, wI(n), l, wA("a")), c16Case(p, c16K, wI(n), l, wA("é")))
+				out = append(out, c16Case(p, c16K, wI_c16(n), l, wV_c16(1)), c16Case(p, c16K, wI_c16(n), l, wA_c16("a")), c16Case(p, c16K, wI_c16(n), l, wA_c16("é")))
 			}
 		}
 		// non-ground data, partial lists, non-lists
-		ls := []string{wList(wV(5), wA("a")), wList(wC("f", wV(5)), wC("f", wA("a")), wV(6)), wList(wV(5), wV(5), wV(6)), wL(wV(7), wA("a"), wA("b")),
-			wL(wA("foo"), wA("a"), wA("b")), wV(7), wA("foo"), wI(3), wList(wList(wA("a")), wList())}
-		ns := []string{wV(0), wI(-1), wI(0), wI(1), wI(2), wI(3), wA("foo"), wF(), wI(c16MaxInt), wI(c16MinInt)}
-		es := []string{wV(1), wA("a"), wC("f", wV(2)), wC("f", wA("b")), wList(wA("a"))}
+		ls := []string{wList_c16(wV_c16(5), wA_c16("a")), wList_c16(wC_c16("f", wV_c16(5)), wC_c16("f", wA_c16("a")), wV_c16(6)), wList_c16(wV_c16(5), wV_c16(5), wV_c16(6)), wL(wV_c16(7), wA_c16("a"), wA_c16("b")),
+			wL(wA_c16("foo"), wA_c16("a"), wA_c16("b")), wV_c16(7), wA_c16("foo"), wI_c16(3), wList_c16(wList_c16(wA_c16("a")), wList_c16())}
+		ns := []string{wV_c16(0), wI_c16(-1), wI_c16(0), wI_c16(1), wI_c16(2), wI_c16(3), wA_c16("foo"), wF(), wI_c16(c16MaxInt), wI_c16(c16MinInt)}
+		es := []string{wV_c16(1), wA_c16("a"), wC_c16("f", wV_c16(2)), wC_c16("f", wA_c16("b")), wList_c16(wA_c16("a"))}
 		for _, l := range ls {
 			for _, n := range ns {
 				for _, e := range es {
@@ -545,25 +545,25 @@ func sysNth(scope int) []string {
 func sysLength(scope int) []string {
 	var out []string
 	p := "length"
-	ns := []string{wV(0), wI(0), wI(1), wI(2), wI(3), wI(4), wI(5)}
+	ns := []string{wV_c16(0), wI_c16(0), wI_c16(1), wI_c16(2), wI_c16(3), wI_c16(4), wI_c16(5)}
 	for n := 0; n <= scope+1; n++ {
 		var es, vs []string
 		for i := 0; i < n; i++ {
-			es = append(es, wA(c16Elems[i%3]))
-			vs = append(vs, wV(10+i))
+			es = append(es, wA_c16(c16Elems[i%3]))
+			vs = append(vs, wV_c16(10+i))
 		}
-		for _, l := range []string{wList(es...), wList(vs...), wL(wV(1), es...), wL(wV(1), vs...), wL(wA("foo"), es...), wL(wI(1), es...),
-			wL(wC("f", wA("a")), es...), wL(wF(), vs...)} {
+		for _, l := range []string{wList_c16(es...), wList_c16(vs...), wL(wV_c16(1), es...), wL(wV_c16(1), vs...), wL(wA_c16("foo"), es...), wL(wI_c16(1), es...),
+			wL(wC_c16("f", wA_c16("a")), es...), wL(wF(), vs...)} {
 			for _, nn := range ns {
 				out = append(out, c16Case(p, c16KInf, l, nn))
 			}
-			out = append(out, c16Case(p, c16KInf, l, wI(-1)), c16Case(p, c16KInf, l, wA("foo")), c16Case(p, c16KInf, l, wF()),
-				c16Case(p, c16KInf, l, wI(c16MaxInt)), c16Case(p, c16KInf, l, wI(1<<50)), c16Case(p, c16KInf, l, wC("f", wA("a"))))
+			out = append(out, c16Case(p, c16KInf, l, wI_c16(-1)), c16Case(p, c16KInf, l, wA_c16("foo")), c16Case(p, c16KInf, l, wF()),
+				c16Case(p, c16KInf, l, wI_c16(c16MaxInt)), c16Case(p, c16KInf, l, wI_c16(1<<50)), c16Case(p, c16KInf, l, wC_c16("f", wA_c16("a"))))
 		}
 		// the length variable is the tail / occurs in the list
-		out = append(out, c16Case(p, c16KInf, wL(wV(0), es...), wV(0)), c16Case(p, c16KInf, wList(append(es, wV(0))...), wV(0)),
-			c16Case(p, c16KInf, wL(wV(1), append(es, wV(0))...), wV(0)), c16Case(p, c16KInf, wL(wV(1), append(es, wV(1))...), wV(0)),
-			c16Case(p, c16KInf, wL(wV(1), append(es, wV(1))...), wI(int64(n+3))))
+		out = append(out, c16Case(p, c16KInf, wL(wV_c16(0), es...), wV_c16(0)), c16Case(p, c16KInf, wList_c16(append(es, wV_c16(0))...), wV_c16(0)),
+			c16Case(p, c16KInf, wL(wV_c16(1), append(es, wV_c16(0))...), wV_c16(0)), c16Case(p, c16KInf, wL(wV_c16(1), append(es, wV_c16(1))...), wV_c16(0)),
+			c16Case(p, c16KInf, wL(wV_c16(1), append(es, wV_c16(1))...), wI_c16(int64(n+3))))
 	}
 	return out
 }
@@ -572,51 +572,51 @@ func sysAppend(scope int) []string {
 	var out []string
 	p := "append"
 	for _, zs := range c16Lists(scope) {
-		z := wList(zs...)
-		out = append(out, c16Case(p, c16K, wV(0), wV(1), z), c16Case(p, c16K, wV(0), wV(0), z), c16Case(p, c16K, wV(0), wList(wA("z")), z),
-			c16Case(p, c16K, wList(wA("z")), wV(0), z), c16Case(p, c16K, wL(wV(0), wV(1)), wV(2), z), c16Case(p, c16K, wV(0), wL(wV(1), wV(2)), z))
+		z := wList_c16(zs...)
+		out = append(out, c16Case(p, c16K, wV_c16(0), wV_c16(1), z), c16Case(p, c16K, wV_c16(0), wV_c16(0), z), c16Case(p, c16K, wV_c16(0), wList_c16(wA_c16("z")), z),
+			c16Case(p, c16K, wList_c16(wA_c16("z")), wV_c16(0), z), c16Case(p, c16K, wL(wV_c16(0), wV_c16(1)), wV_c16(2), z), c16Case(p, c16K, wV_c16(0), wL(wV_c16(1), wV_c16(2)), z))
 		for i := 0; i <= len(zs); i++ {
-			x, y := wList(zs[:i]...), wList(zs[i:]...)
-			out = append(out, c16Case(p, c16K, x, wV(0), z), c16Case(p, c16K, wV(0), y, z), c16Case(p, c16K, x, y, z), c16Case(p, c16K, x, y, wV(0)),
-				c16Case(p, c16K, y, x, z), c16Case(p, c16KInf, x, wV(0), wV(1)), c16Case(p, c16KInf, wV(0), y, wV(1)),
-				c16Case(p, c16KInf, wL(wV(0), zs[:i]...), wV(1), wV(2)), c16Case(p, c16KInf, wL(wV(0), zs[:i]...), y, wV(2)),
-				c16Case(p, c16KInf, wV(0), wV(1), wL(wV(2), zs[:i]...)), c16Case(p, c16KInf, wL(wV(0), zs[:i]...), wV(1), wL(wV(2), zs...)),
-				c16Case(p, c16K, wL(wV(0), zs[:i]...), wV(1), z), c16Case(p, c16K, x, wV(1), wL(wV(2), zs...)))
+			x, y := wList_c16(zs[:i]...), wList_c16(zs[i:]...)
+			out = append(out, c16Case(p, c16K, x, wV_c16(0), z), c16Case(p, c16K, wV_c16(0), y, z), c16Case(p, c16K, x, y, z), c16Case(p, c16K, x, y, wV_c16(0)),
+				c16Case(p, c16K, y, x, z), c16Case(p, c16KInf, x, wV_c16(0), wV_c16(1)), c16Case(p, c16KInf, wV_c16(0), y, wV_c16(1)),
+				c16Case(p, c16KInf, wL(wV_c16(0), zs[:i]...), wV_c16(1), wV_c16(2)), c16Case(p, c16KInf, wL(wV_c16(0), zs[:i]...), y, wV_c16(2)),
+				c16Case(p, c16KInf, wV_c16(0), wV_c16(1), wL(wV_c16(2), zs[:i]...)), c16Case(p, c16KInf, wL(wV_c16(0), zs[:i]...), wV_c16(1), wL(wV_c16(2), zs...)),
+				c16Case(p, c16K, wL(wV_c16(0), zs[:i]...), wV_c16(1), z), c16Case(p, c16K, x, wV_c16(1), wL(wV_c16(2), zs...)))
 		}
 	}
-	for _, j := range []string{wA("foo"), wI(1), wC("f", wA("a")), wL(wA("foo"), wA("a"))} {
-		out = append(out, c16Case(p, c16KInf, j, wV(0), wV(1)), c16Case(p, c16KInf, wV(0), j, wV(1)), c16Case(p, c16KInf, wV(0), wV(1), j),
-			c16Case(p, c16KInf, j, j, wV(0)), c16Case(p, c16KInf, wList(wA("a")), j, wV(0)), c16Case(p, c16KInf, wList(wA("a")), wV(0), j))
+	for _, j := range []string{wA_c16("foo"), wI_c16(1), wC_c16("f", wA_c16("a")), wL(wA_c16("foo"), wA_c16("a"))} {
+		out = append(out, c16Case(p, c16KInf, j, wV_c16(0), wV_c16(1)), c16Case(p, c16KInf, wV_c16(0), j, wV_c16(1)), c16Case(p, c16KInf, wV_c16(0), wV_c16(1), j),
+			c16Case(p, c16KInf, j, j, wV_c16(0)), c16Case(p, c16KInf, wList_c16(wA_c16("a")), j, wV_c16(0)), c16Case(p, c16KInf, wList_c16(wA_c16("a")), wV_c16(0), j))
 	}
-	out = append(out, c16Case(p, c16KInf, wV(0), wV(1), wV(2)), c16Case(p, c16KInf, wList(wV(0), wV(1)), wV(2), wList(wA("a"), wA("b"), wA("c"))),
-		c16Case(p, c16KInf, wList(wV(0), wV(0)), wV(2), wList(wA("a"), wA("b"), wA("c"))), c16Case(p, c16KInf, wV(2), wList(wV(0), wV(0)), wList(wA("a"), wA("b"), wA("b"))))
+	out = append(out, c16Case(p, c16KInf, wV_c16(0), wV_c16(1), wV_c16(2)), c16Case(p, c16KInf, wList_c16(wV_c16(0), wV_c16(1)), wV_c16(2), wList_c16(wA_c16("a"), wA_c16("b"), wA_c16("c"))),
+		c16Case(p, c16KInf, wList_c16(wV_c16(0), wV_c16(0)), wV_c16(2), wList_c16(wA_c16("a"), wA_c16("b"), wA_c16("c"))), c16Case(p, c16KInf, wV_c16(2), wList_c16(wV_c16(0), wV_c16(0)), wList_c16(wA_c16("a"), wA_c16("b"), wA_c16("b"))))
 	return out
 }
 
 func sysMemberSelect(scope int) []string {
 	var out []string
-	xs := []string{wV(0), wA("a"), wA("é"), wA("z"), wC("f", wV(1))}
+	xs := []string{wV_c16(0), wA_c16("a"), wA_c16("é"), wA_c16("z"), wC_c16("f", wV_c16(1))}
 	for _, es := range c16Lists(scope) {
-		l := wList(es...)
+		l := wList_c16(es...)
 		for _, x := range xs {
-			out = append(out, c16Case("member", c16K, x, l), c16Case("select", c16K, x, l, wV(2)))
+			out = append(out, c16Case("member", c16K, x, l), c16Case("select", c16K, x, l, wV_c16(2)))
 		}
-		out = append(out, c16Case("member", c16KInf, wV(0), wL(wV(1), es...)), c16Case("member", c16KInf, wA("a"), wL(wV(1), es...)),
-			c16Case("select", c16KInf, wV(0), wL(wV(1), es...), wV(2)), c16Case("select", c16KInf, wA("é"), wV(1), l))
+		out = append(out, c16Case("member", c16KInf, wV_c16(0), wL(wV_c16(1), es...)), c16Case("member", c16KInf, wA_c16("a"), wL(wV_c16(1), es...)),
+			c16Case("select", c16KInf, wV_c16(0), wL(wV_c16(1), es...), wV_c16(2)), c16Case("select", c16KInf, wA_c16("é"), wV_c16(1), l))
 		for i := range es {
 			rest := append(append([]string{}, es[:i]...), es[i+1:]...)
-			out = append(out, c16Case("select", c16K, es[i], l, wList(rest...)), c16Case("select", c16K, wV(0), l, wList(rest...)),
-				c16Case("select", c16K, wV(0), wV(1), wList(rest...)), c16Case("select", c16K, es[i], l, wL(wV(3), rest[:i]...)))
+			out = append(out, c16Case("select", c16K, es[i], l, wList_c16(rest...)), c16Case("select", c16K, wV_c16(0), l, wList_c16(rest...)),
+				c16Case("select", c16K, wV_c16(0), wV_c16(1), wList_c16(rest...)), c16Case("select", c16K, es[i], l, wL(wV_c16(3), rest[:i]...)))
 			if c16KInf > 0 {
-				out = append(out, c16Case("select", c16KInf, es[i], wV(1), wList(rest...)))
+				out = append(out, c16Case("select", c16KInf, es[i], wV_c16(1), wList_c16(rest...)))
 			}
 		}
 	}
 	// non-ground data
-	ls := []string{wList(wV(5), wA("a")), wList(wC("f", wV(5)), wC("f", wA("a")), wV(6)), wList(wV(5), wV(5)), wA("foo"), wL(wA("foo"), wA("a")), wV(7)}
+	ls := []string{wList_c16(wV_c16(5), wA_c16("a")), wList_c16(wC_c16("f", wV_c16(5)), wC_c16("f", wA_c16("a")), wV_c16(6)), wList_c16(wV_c16(5), wV_c16(5)), wA_c16("foo"), wL(wA_c16("foo"), wA_c16("a")), wV_c16(7)}
 	for _, l := range ls {
 		for _, x := range xs {
-			out = append(out, c16Case("member", c16KInf, x, l), c16Case("select", c16KInf, x, l, wV(2)))
+			out = append(out, c16Case("member", c16KInf, x, l), c16Case("select", c16KInf, x, l, wV_c16(2)))
 		}
 	}
 	return out
@@ -678,7 +678,7 @@ func randInt(r *rand.Rand) int64 {
 func maybe(r *rand.Rand, v *int, val string) string {
 	if r.Intn(2) == 0 {
 		*v++
-		return wV(*v - 1)
+		return wV_c16(*v - 1)
 	}
 	return val
 }
@@ -687,13 +687,13 @@ func randElem(r *rand.Rand, v *int) string {
 	switch r.Intn(8) {
 	case 0:
 		*v++
-		return wV(*v - 1)
+		return wV_c16(*v - 1)
 	case 1:
-		return wC("f", wA(pick(r, c16Elems)))
+		return wC_c16("f", wA_c16(pick(r, c16Elems)))
 	case 2:
-		return wI(int64(r.Intn(5)))
+		return wI_c16(int64(r.Intn(5)))
 	default:
-		return wA(pick(r, c16Sigma))
+		return wA_c16(pick(r, c16Sigma))
 	}
 }
 
@@ -702,21 +702,21 @@ func genC16Random(r *rand.Rand) string {
 	switch r.Intn(15) {
 	case 0:
 		cs := randText(r, 4, 12)
-		return c16Case("atom_length", c16K, wA(join(cs)), maybe(r, &v, wI(int64(len(cs)))))
+		return c16Case("atom_length", c16K, wA_c16(join(cs)), maybe(r, &v, wI_c16(int64(len(cs)))))
 	case 1:
 		cs := randText(r, 4, 12)
 		i := r.Intn(len(cs) + 1)
-		a, b, c := maybe(r, &v, wA(join(cs[:i]))), maybe(r, &v, wA(join(cs[i:]))), wA(join(cs))
+		a, b, c := maybe(r, &v, wA_c16(join(cs[:i]))), maybe(r, &v, wA_c16(join(cs[i:]))), wA_c16(join(cs))
 		if v < 2 && r.Intn(3) == 0 {
-			c = wV(v)
+			c = wV_c16(v)
 		}
 		return c16Case("atom_concat", c16K, a, b, c)
 	case 2:
 		cs := randText(r, 4, 10)
 		i := r.Intn(len(cs) + 1)
 		j := i + r.Intn(len(cs)-i+1)
-		return c16Case("sub_atom", c16K, wA(join(cs)), maybe(r, &v, wI(int64(i))), maybe(r, &v, wI(int64(j-i))),
-			maybe(r, &v, wI(int64(len(cs)-j))), maybe(r, &v, wA(join(cs[i:j]))))
+		return c16Case("sub_atom", c16K, wA_c16(join(cs)), maybe(r, &v, wI_c16(int64(i))), maybe(r, &v, wI_c16(int64(j-i))),
+			maybe(r, &v, wI_c16(int64(len(cs)-j))), maybe(r, &v, wA_c16(join(cs[i:j]))))
 	case 3, 4:
 		cs := randText(r, 4, 12)
 		p, es := "atom_chars", charListW(cs)
@@ -725,33 +725,33 @@ func genC16Random(r *rand.Rand) string {
 		}
 		for i := range es {
 			if r.Intn(6) == 0 {
-				es[i] = wV(v)
+				es[i] = wV_c16(v)
 				v++
 			}
 		}
-		l := wList(es...)
+		l := wList_c16(es...)
 		if r.Intn(4) == 0 {
-			l = wL(wV(v), es[:r.Intn(len(es)+1)]...)
+			l = wL(wV_c16(v), es[:r.Intn(len(es)+1)]...)
 			v++
 		}
-		a := wA(join(cs))
+		a := wA_c16(join(cs))
 		if r.Intn(4) == 0 {
-			a = wV(v)
+			a = wV_c16(v)
 		}
 		return c16Case(p, c16K, a, l)
 	case 5:
 		c := pick(r, c16Runes)
-		return c16Case("char_code", c16K, maybe(r, &v, wA(string(c))), maybe(r, &v, wI(int64(c))))
+		return c16Case("char_code", c16K, maybe(r, &v, wA_c16(string(c))), maybe(r, &v, wI_c16(int64(c))))
 	case 6:
 		l, h := randInt(r), randInt(r)
-		x := wV(0)
+		x := wV_c16(0)
 		if r.Intn(2) == 0 {
-			x = wI(randInt(r))
+			x = wI_c16(randInt(r))
 		}
-		return c16Case("between", c16KInf, wI(l), wI(h), x)
+		return c16Case("between", c16KInf, wI_c16(l), wI_c16(h), x)
 	case 7:
 		x := randInt(r)
-		return c16Case("succ", c16K, maybe(r, &v, wI(x)), maybe(r, &v, wI(x+1)))
+		return c16Case("succ", c16K, maybe(r, &v, wI_c16(x)), maybe(r, &v, wI_c16(x+1)))
 	case 8, 9:
 		n := 4 + r.Intn(8)
 		es := make([]string, n)
@@ -767,31 +767,31 @@ func genC16Random(r *rand.Rand) string {
 		// the pattern arguments are fresh variables or ground: NSTO by construction
 		e := es[i]
 		if strings.Contains(e, "V") {
-			e = wA("a")
+			e = wA_c16("a")
 		}
-		return c16Case(p, c16K, maybe(r, &v, wI(idx)), wList(es...), maybe(r, &v, e))
+		return c16Case(p, c16K, maybe(r, &v, wI_c16(idx)), wList_c16(es...), maybe(r, &v, e))
 	case 10:
 		n := r.Intn(10)
 		es := make([]string, n)
 		for i := range es {
 			es[i] = randElem(r, &v)
 		}
-		l := wList(es...)
+		l := wList_c16(es...)
 		if r.Intn(2) == 0 {
-			l = wL(wV(v), es...)
+			l = wL(wV_c16(v), es...)
 			v++
 		}
-		return c16Case("length", c16KInf, l, maybe(r, &v, wI(int64(n+r.Intn(3)))))
+		return c16Case("length", c16KInf, l, maybe(r, &v, wI_c16(int64(n+r.Intn(3)))))
 	case 11, 12:
 		n := 3 + r.Intn(7)
 		es := make([]string, n)
 		for i := range es {
-			es[i] = wA(pick(r, c16Sigma))
+			es[i] = wA_c16(pick(r, c16Sigma))
 		}
 		i := r.Intn(n + 1)
-		x, y, z := maybe(r, &v, wList(es[:i]...)), maybe(r, &v, wList(es[i:]...)), wList(es...)
+		x, y, z := maybe(r, &v, wList_c16(es[:i]...)), maybe(r, &v, wList_c16(es[i:]...)), wList_c16(es...)
 		if r.Intn(3) == 0 {
-			z = wV(v)
+			z = wV_c16(v)
 			v++
 		}
 		return c16Case("append", c16KInf+4, x, y, z)
@@ -799,14 +799,14 @@ func genC16Random(r *rand.Rand) string {
 		n := 3 + r.Intn(7)
 		es := make([]string, n)
 		for i := range es {
-			es[i] = wA(pick(r, c16Sigma))
+			es[i] = wA_c16(pick(r, c16Sigma))
 		}
 		i := r.Intn(n)
 		if r.Intn(2) == 0 {
-			return c16Case("member", c16K, maybe(r, &v, es[i]), wList(es...))
+			return c16Case("member", c16K, maybe(r, &v, es[i]), wList_c16(es...))
 		}
 		rest := append(append([]string{}, es[:i]...), es[i+1:]...)
-		return c16Case("select", c16K, maybe(r, &v, es[i]), wList(es...), maybe(r, &v, wList(rest...)))
+		return c16Case("select", c16K, maybe(r, &v, es[i]), wList_c16(es...), maybe(r, &v, wList_c16(rest...)))
 	}
 }
 
